@@ -171,6 +171,7 @@ fn abs_state(psbt: &Psbt, int: &mut Interner, out: &mut Vec<String>) -> J {
 enum Op {
     Sig { i: usize, key: usize, variant: u8 },
     TapKeySig { i: usize, bad: bool },
+    TapKeySigView { i: usize },
     TapScriptSig { i: usize, idx: usize, bad: bool },
     Preimage { i: usize, kind: usize, wrong: bool },
     Unknown { i: usize, k: u8, v: u8 },
@@ -189,7 +190,9 @@ impl Op {
         match self {
             Op::Sig { variant: 0, .. } => "add-sig",
             Op::Sig { variant: 1, .. } => "add-wrong-sig",
-            Op::Sig { .. } => "add-sig-wrong-flag",
+            Op::Sig { variant: 2, .. } => "add-sig-wrong-flag",
+            Op::Sig { .. } => "add-sig-over-psbt-utxo",
+            Op::TapKeySigView { .. } => "add-tap-key-sig-over-psbt-utxo",
             Op::TapKeySig { bad: false, .. } => "add-tap-key-sig",
             Op::TapKeySig { .. } => "add-wrong-tap-key-sig",
             Op::TapScriptSig { bad: false, .. } => "add-tap-script-sig",
@@ -209,8 +212,20 @@ impl Op {
     fn footprint(&self, case: &Case) -> Option<(usize, u8, usize)> {
         match self {
             Op::Sig { i, key, .. } => Some((*i, 0, *key)),
-            Op::TapKeySig { i, .. } => Some((*i, 1, 0)),
-            Op::TapScriptSig { i, idx, .. } => Some((*i, 2, *idx)),
+            Op::TapKeySig { i, .. } | Op::TapKeySigView { i } => Some((*i, 1, 0)),
+            Op::TapScriptSig { i, idx, .. } => {
+                // the map key is (x-only key, leaf hash): equal leaf scripts at two positions of a
+                // tree share it, so the footprint is the first entry with the same map key
+                let m = &case.inputs[*i];
+                let tap = m.tap.as_ref().unwrap();
+                let (ki, li, _, _) = &m.tap_script_sigs[*idx];
+                let canon = m
+                    .tap_script_sigs
+                    .iter()
+                    .position(|(k2, l2, _, _)| m.keys[*k2] == m.keys[*ki] && tap.leaves[*l2].leaf_hash == tap.leaves[*li].leaf_hash)
+                    .unwrap_or(*idx);
+                Some((*i, 2, canon))
+            }
             Op::Preimage { i, kind, .. } => Some((*i, 3, *kind)),
             Op::Unknown { i, k, .. } => Some((*i, 4, *k as usize)),
             Op::Update { i, .. } => {
@@ -307,17 +322,80 @@ struct Ctx<'a> {
 
 fn unknown_key(k: u8) -> raw::Key { raw::Key { type_value: 0xf0, key: vec![k] } }
 
-fn op_json(cx: &Ctx, op: &Op) -> J {
+/// The spent output as the PSBT presents it (the library's get_utxo order: witness_utxo first).
+fn psbt_view_utxo(psbt: &Psbt, i: usize) -> Option<bitcoin::TxOut> {
+    let a = &psbt.inputs[i];
+    if let Some(w) = &a.witness_utxo {
+        return Some(w.clone());
+    }
+    let vout = psbt.unsigned_tx.input.get(i)?.previous_output.vout as usize;
+    a.non_witness_utxo.as_ref().and_then(|t| t.output.get(vout).cloned())
+}
+
+/// ECDSA signature number `variant` of instance key `key` for input `i`:
+/// 0 good (over the real prevout), 1 wrong message, 2 wrong sighash flag,
+/// 3 what a signer computes who trusts the PSBT's utxo fields (segwit v0 commits to the amount).
+fn ecdsa_sig_for(cx: &Ctx, psbt: &Psbt, i: usize, key: usize, variant: u8) -> bitcoin::ecdsa::Signature {
+    let m = &cx.case.inputs[i];
+    let (_, good, bad) = &m.ecdsa_sigs[key];
+    match variant {
+        0 => *good,
+        1 => *bad,
+        2 => bitcoin::ecdsa::Signature { signature: good.signature, sighash_type: EcdsaSighashType::None },
+        _ => {
+            let amount = match psbt_view_utxo(psbt, i) {
+                Some(o) => o.value,
+                None => return *good,
+            };
+            let mut cache = SighashCache::new(&psbt.unsigned_tx);
+            let all = EcdsaSighashType::All;
+            let digest = match m.outer {
+                Outer::Wpkh => cache.p2wpkh_signature_hash(i, &m.spk, amount, all).ok().map(|h| h.to_byte_array()),
+                Outer::ShWpkh => cache.p2wpkh_signature_hash(i, m.redeem_script.as_ref().unwrap(), amount, all).ok().map(|h| h.to_byte_array()),
+                Outer::Wsh | Outer::ShWsh => {
+                    cache.p2wsh_signature_hash(i, m.witness_script.as_ref().unwrap(), amount, all).ok().map(|h| h.to_byte_array())
+                }
+                _ => None,
+            };
+            match digest {
+                Some(d) => {
+                    let msg = bitcoin::secp256k1::Message::from_digest(d);
+                    bitcoin::ecdsa::Signature { signature: cx.pool.secp.sign_ecdsa(&msg, &cx.pool.keys[m.keys[key]].sk), sighash_type: all }
+                }
+                None => *good,
+            }
+        }
+    }
+}
+
+/// Taproot key-spend signature over the prevouts as the PSBT presents them.
+fn tap_key_view_sig(cx: &Ctx, psbt: &Psbt, i: usize) -> Option<bitcoin::taproot::Signature> {
+    use bitcoin::key::TapTweak;
+    let m = &cx.case.inputs[i];
+    let tap = m.tap.as_ref()?;
+    let mut prevouts = Vec::new();
+    for j in 0..psbt.inputs.len() {
+        prevouts.push(psbt_view_utxo(psbt, j)?);
+    }
+    let mut cache = SighashCache::new(&psbt.unsigned_tx);
+    let h = cache
+        .taproot_key_spend_signature_hash(i, &bitcoin::sighash::Prevouts::All(&prevouts), bitcoin::sighash::TapSighashType::Default)
+        .ok()?;
+    let msg = bitcoin::secp256k1::Message::from_digest(h.to_byte_array());
+    let kp = bitcoin::key::Keypair::from_secret_key(&cx.pool.secp, &cx.pool.keys[m.keys[0]].sk);
+    let tweaked = kp.tap_tweak(&cx.pool.secp, tap.spend_info.merkle_root()).to_keypair();
+    Some(bitcoin::taproot::Signature {
+        signature: cx.pool.secp.sign_schnorr_no_aux_rand(&msg, &tweaked),
+        sighash_type: bitcoin::sighash::TapSighashType::Default,
+    })
+}
+
+fn op_json(cx: &Ctx, psbt: &Psbt, op: &Op) -> J {
     let m = |i: usize| &cx.case.inputs[i];
     match op {
         Op::Sig { i, key, variant } => {
-            let (_, good, bad) = &m(*i).ecdsa_sigs[*key];
             let pk = cx.pool.keys[m(*i).keys[*key]].full();
-            let sig = match variant {
-                0 => *good,
-                1 => *bad,
-                _ => bitcoin::ecdsa::Signature { signature: good.signature, sighash_type: EcdsaSighashType::None },
-            };
+            let sig = ecdsa_sig_for(cx, psbt, *i, *key, *variant);
             J::obj(vec![
                 ("o", J::s("sig")),
                 ("i", J::N(*i as i64)),
@@ -330,6 +408,10 @@ fn op_json(cx: &Ctx, op: &Op) -> J {
         Op::TapKeySig { i, bad } => {
             let (g, b) = m(*i).tap_key_sig.as_ref().unwrap();
             let s = if *bad { b } else { g };
+            J::obj(vec![("o", J::s("tapkeysig")), ("i", J::N(*i as i64)), ("s", J::S(dig("tsig", &s.to_vec()))), ("what", J::s(op.kind()))])
+        }
+        Op::TapKeySigView { i } => {
+            let s = tap_key_view_sig(cx, psbt, *i).unwrap_or(m(*i).tap_key_sig.as_ref().unwrap().0);
             J::obj(vec![("o", J::s("tapkeysig")), ("i", J::N(*i as i64)), ("s", J::S(dig("tsig", &s.to_vec()))), ("what", J::s(op.kind()))])
         }
         Op::TapScriptSig { i, idx, bad } => {
@@ -387,14 +469,14 @@ fn exec(cx: &Ctx, psbt: &mut Psbt, op: &Op) -> Res {
         let m = |i: usize| &cx.case.inputs[i];
         match op {
             Op::Sig { i, key, variant } => {
-                let (_, good, bad) = &m(*i).ecdsa_sigs[*key];
                 let pk = cx.pool.keys[m(*i).keys[*key]].full();
-                let sig = match variant {
-                    0 => *good,
-                    1 => *bad,
-                    _ => bitcoin::ecdsa::Signature { signature: good.signature, sighash_type: EcdsaSighashType::None },
-                };
+                let sig = ecdsa_sig_for(cx, psbt, *i, *key, *variant);
                 psbt.inputs[*i].partial_sigs.insert(pk, sig);
+                Res::Ok
+            }
+            Op::TapKeySigView { i } => {
+                let s = tap_key_view_sig(cx, psbt, *i).unwrap_or(m(*i).tap_key_sig.as_ref().unwrap().0);
+                psbt.inputs[*i].tap_key_sig = Some(s);
                 Res::Ok
             }
             Op::TapKeySig { i, bad } => {
@@ -549,7 +631,7 @@ fn verify_final_fields(cx: &Ctx, j: usize, a: &psbt::Input) -> Result<(), String
     oracle::interpreter_accepts(cx.pool, cx.case, j, &ss, &w)
 }
 
-fn monitor(cx: &Ctx, step: usize, op: &Op, before: &Psbt, after: &Psbt, res: &Res, externally_final: &[bool], out: &mut Vec<Viol>) {
+fn monitor(cx: &Ctx, step: usize, op: &Op, before: &Psbt, after: &Psbt, res: &Res, checked: &[bool], out: &mut Vec<Viol>) {
     let mut v = |key: &str, what: String| out.push(Viol { key: key.to_string(), what, step, before: None });
     if *res == Res::Panic {
         v("panic", format!("{} panicked", op.kind()));
@@ -578,8 +660,16 @@ fn monitor(cx: &Ctx, step: usize, op: &Op, before: &Psbt, after: &Psbt, res: &Re
             }
             // (ii) a finalized input must be a valid spend of the referenced output
             if let Err(e) = verify_final_fields(cx, j, a) {
-                v(&format!("invalid-final:{}", cx.case.inputs[j].outer.name()),
-                  format!("{} finalized input {} ({}) with fields that do not spend the output: {}", op.kind(), j, cx.case.inputs[j].template, e));
+                let lie = utxo_lie(cx, before, j);
+                if lie.is_some() && !checked.get(j).copied().unwrap_or(true) {
+                    // nobody ran the checked updater on this input: the finalizer took the PSBT's word
+                    v("unchecked-utxo-finalized",
+                      format!("{} finalized input {} ({}) against utxo data that no checked update had accepted ({}); against the REAL prevout: {}", op.kind(), j, cx.case.inputs[j].template, lie.unwrap(), e));
+                } else {
+                    v(&format!("invalid-final:{}", cx.case.inputs[j].outer.name()),
+                      format!("{} finalized input {} ({}) with fields that do not spend the referenced output{}: {}", op.kind(), j, cx.case.inputs[j].template,
+                              lie.map(|l| format!(" [{}]", l)).unwrap_or_default(), e));
+                }
             }
             // what is kept: the utxo, the final fields, and (BIP174) the unknown fields
             let mut e = psbt::Input::default();
@@ -647,6 +737,10 @@ fn monitor(cx: &Ctx, step: usize, op: &Op, before: &Psbt, after: &Psbt, res: &Re
             }
         }
         (Op::Update { i, d }, Res::Ok) => {
+            // the documented utxo consistency check of the checked updater
+            if let Some(why) = utxo_inconsistent(before, *i) {
+                v("update-accepts-inconsistent-utxo", format!("update_input_with_descriptor({}) accepted utxo fields that are not tied to the referenced output: {}", i, why));
+            }
             let fresh = only_utxo(&before.inputs[*i]);
             if cx.case.inputs[*d].spk != cx.case.inputs[*i].spk {
                 v("update-accepts-wrong-descriptor", format!("update of input {} accepted the descriptor of input {}", i, d));
@@ -665,7 +759,7 @@ fn monitor(cx: &Ctx, step: usize, op: &Op, before: &Psbt, after: &Psbt, res: &Re
             if before != after {
                 v("update-fail-mutated", format!("a failing update ({:?}) changed the PSBT", r));
             }
-            if i == d {
+            if i == d && utxo_inconsistent(before, *i).is_none() {
                 v("update-rejects-own-descriptor", format!("update of input {} with its own descriptor failed: {:?}", i, r));
             }
         }
@@ -677,11 +771,56 @@ fn monitor(cx: &Ctx, step: usize, op: &Op, before: &Psbt, after: &Psbt, res: &Re
             v("extract-mutated", "extract changed the PSBT".to_string());
         }
     }
-    let _ = externally_final;
+}
+
+/// Are the utxo fields of input `i` tied to the output the unsigned transaction references?
+/// (what update_input_with_descriptor documents to check; judged with rust-bitcoin only)
+fn utxo_inconsistent(psbt: &Psbt, i: usize) -> Option<String> {
+    let a = &psbt.inputs[i];
+    let prev = psbt.unsigned_tx.input.get(i)?.previous_output;
+    if let Some(t) = &a.non_witness_utxo {
+        if t.compute_txid() != prev.txid {
+            return Some("non_witness_utxo is not the transaction named by the outpoint".into());
+        }
+        match t.output.get(prev.vout as usize) {
+            None => return Some("the outpoint's vout is beyond the outputs of non_witness_utxo".into()),
+            Some(o) => {
+                if let Some(w) = &a.witness_utxo {
+                    if w.script_pubkey != o.script_pubkey {
+                        return Some("witness_utxo has another script than the referenced output".into());
+                    }
+                    if w.value != o.value {
+                        return Some(format!("witness_utxo says {} sat, the referenced output holds {} sat", w.value.to_sat(), o.value.to_sat()));
+                    }
+                }
+            }
+        }
+    } else if a.witness_utxo.is_none() {
+        return Some("no utxo field".into());
+    }
+    None
+}
+
+/// Does the PSBT present another spent output for input `j` than the real prevout of the case?
+fn utxo_lie(cx: &Ctx, psbt: &Psbt, j: usize) -> Option<String> {
+    let m = &cx.case.inputs[j];
+    if let Some(t) = psbt.unsigned_tx.input.get(j) {
+        if t.previous_output.vout != m.vout {
+            return Some(format!("the outpoint names output {} which the referenced transaction does not have", t.previous_output.vout));
+        }
+    }
+    match psbt_view_utxo(psbt, j) {
+        Some(o) if o.value == m.value && o.script_pubkey == m.spk => None,
+        Some(o) => Some(format!("the PSBT presents {} sat / {}, the real prevout is {} sat / {}", o.value.to_sat(), dig("spk", o.script_pubkey.as_bytes()), m.value.to_sat(), dig("spk", m.spk.as_bytes()))),
+        None => Some("the PSBT presents no spent output".into()),
+    }
 }
 
 /// extract: the transaction is the unsigned one plus the final fields, and every input verifies
-fn monitor_extract(cx: &Ctx, step: usize, psbt: &Psbt, out: &mut Vec<Viol>) {
+/// against the REAL prevout (the case's previous transaction output, which is also
+/// non_witness_utxo.output[vout] whenever that field is the genuine transaction) with sighashes
+/// computed by rust-bitcoin from that prevout - never from the PSBT's witness_utxo.
+fn monitor_extract(cx: &Ctx, step: usize, psbt: &Psbt, checked: &[bool], out: &mut Vec<Viol>) {
     if let Ok(tx) = psbt.extract(&cx.vsecp) {
         let mut v = |key: &str, what: String| out.push(Viol { key: key.to_string(), what, step, before: None });
         let u = &psbt.unsigned_tx;
@@ -698,7 +837,23 @@ fn monitor_extract(cx: &Ctx, step: usize, psbt: &Psbt, out: &mut Vec<Viol>) {
                 v("extract-mismatch", format!("extracted input {} does not carry the final fields", j));
             }
             if let Err(e) = oracle::verify_spend(cx.pool, cx.case, j, &t.script_sig, &t.witness).and_then(|_| oracle::interpreter_accepts(cx.pool, cx.case, j, &t.script_sig, &t.witness)) {
-                v(&format!("extract-invalid:{}", cx.case.inputs[j].outer.name()), format!("extracted transaction: input {} ({}) does not validate: {}", j, cx.case.inputs[j].template, e));
+                // self-check of the oracle's notion of "real prevout"
+                if let Some(t) = &a.non_witness_utxo {
+                    if t.compute_txid() == u.input[j].previous_output.txid {
+                        if let Some(o) = t.output.get(u.input[j].previous_output.vout as usize) {
+                            if o.value != cx.case.inputs[j].value || o.script_pubkey != cx.case.inputs[j].spk {
+                                v("selfcheck", "the genuine non_witness_utxo disagrees with the case's real prevout".into());
+                            }
+                        }
+                    }
+                }
+                let lie = utxo_lie(cx, psbt, j);
+                if lie.is_some() && !checked.get(j).copied().unwrap_or(true) {
+                    v("unchecked-utxo-finalized", format!("extracted transaction: input {} ({}) was finalized against utxo data no checked update had accepted ({}); against the REAL prevout: {}", j, cx.case.inputs[j].template, lie.unwrap(), e));
+                } else {
+                    v(&format!("extract-invalid:{}", cx.case.inputs[j].outer.name()),
+                      format!("finalization succeeded without a valid spend: extracted transaction input {} ({}) does not validate against the real prevout{}: {}", j, cx.case.inputs[j].template, lie.map(|l| format!(" [{}]", l)).unwrap_or_default(), e));
+                }
             }
         }
     }
@@ -835,14 +990,22 @@ fn run_history(
 ) {
     let mut psbt = init.clone();
     let mut viols: Vec<Viol> = Vec::new();
-    let ext_final: Vec<bool> = init.inputs.iter().map(is_final).collect();
+    // has a checked update accepted input i's utxo data? (inputs whose utxo view is truthful count as checked)
+    let mut checked: Vec<bool> = (0..init.inputs.len()).map(|j| utxo_lie(cx, init, j).is_none()).collect();
     let s0 = abs_state(&psbt, int, lines);
     let mut obs = Vec::new();
     let mut results = Vec::new();
+    let mut opj = Vec::new();
     for (t, op) in ops.iter().enumerate() {
         let before = psbt.clone();
+        opj.push(op_json(cx, &before, op));
         let res = exec(cx, &mut psbt, op);
-        monitor(cx, t, op, &before, &psbt, &res, &ext_final, &mut viols);
+        monitor(cx, t, op, &before, &psbt, &res, &checked, &mut viols);
+        if let (Op::Update { i, .. }, Res::Ok) = (op, &res) {
+            if *i < checked.len() {
+                checked[*i] = true;
+            }
+        }
         *st.op_hist.entry(op.kind().to_string()).or_default() += 1;
         *st.res_hist.entry(format!("{}:{}", op.kind(), res.class())).or_default() += 1;
         st.ops += 1;
@@ -857,7 +1020,7 @@ fn run_history(
             Res::InputErr(_, e) => *st.failed_attempts.entry(*e).or_default() += 1,
             Res::Extracted(_) => {
                 st.extracted += 1;
-                monitor_extract(cx, t, &psbt, &mut viols);
+                monitor_extract(cx, t, &psbt, &checked, &mut viols);
             }
             _ => {}
         }
@@ -938,8 +1101,9 @@ fn run_history(
         ("id", J::N(hid as i64)),
         ("case", J::N(cid as i64)),
         ("kind", J::s(kind)),
+        ("tx", J::S(dig("tx", &serialize(&init.unsigned_tx)))),
         ("s0", s0),
-        ("ops", J::A(ops.iter().map(|o| op_json(cx, o)).collect())),
+        ("ops", J::A(opj)),
         ("obs", J::A(obs)),
         (
             "viol",
@@ -1291,7 +1455,7 @@ pub fn run(args: &[String]) {
     use std::io::Write;
     let mut lines: Vec<String> = Vec::new();
     mall_probe(&pool, &mut lines);
-    let mut hid = 0usize;
+    let mut hid: usize;
     let mut desc_base = 0usize;
     for cid in 0..ncases {
         // every case has its own PRNG stream so that `--only` replays it exactly
@@ -1306,6 +1470,8 @@ pub fn run(args: &[String]) {
             }
         };
         let nin = case.inputs.len();
+        // history ids are stable under --only: case id * 10000 + running number
+        hid = cid * 10_000;
         let this_base = desc_base;
         desc_base += 4;
         if let Some(o) = only {
@@ -1410,6 +1576,47 @@ pub fn run(args: &[String]) {
                 let ops = vec![Op::Finalize { mall: false, byval: false }, Op::Extract, Op::FinalizeInp { i: victim, mall: false, byval: false }, Op::Extract];
                 run_history(&cx, &g, &ops, "garbage-final", hid, cid, &mut int, &mut lines, &mut st);
                 hid += 1;
+            }
+            // (e) inputs carrying BOTH utxo fields, consistent and inconsistent, through
+            //     update -> sign (by a signer that trusts the PSBT) -> finalize -> extract
+            if ini < 2 {
+                let segwit: Vec<usize> = (0..nin).filter(|i| case.inputs[*i].outer.is_segwit()).collect();
+                if !segwit.is_empty() {
+                    let j = segwit[rng.below(segwit.len())];
+                    for variant in 0..gen::UTXO_VARIANTS.len() {
+                        let mut g = gen::both_utxo_base(&case, &pool, j, variant);
+                        for i in 0..nin {
+                            if i != j {
+                                prepare_input(&cx, &mut g, i, 2, &mut rng);
+                            }
+                        }
+                        let m = &case.inputs[j];
+                        let mut signing: Vec<Op> = Vec::new();
+                        for k in 0..m.ecdsa_sigs.len() {
+                            signing.push(Op::Sig { i: j, key: k, variant: 3 });
+                        }
+                        if m.tap_key_sig.is_some() {
+                            signing.push(Op::TapKeySigView { i: j });
+                        }
+                        for kind in &m.uses_hash {
+                            signing.push(Op::Preimage { i: j, kind: *kind, wrong: false });
+                        }
+                        let tail = vec![Op::FinalizeInp { i: j, mall: false, byval: false }, Op::Finalize { mall: false, byval: false }, Op::Extract];
+                        // with the checked updater as entry point
+                        let mut ops = vec![Op::Update { i: j, d: j }];
+                        ops.extend(signing.clone());
+                        ops.extend(tail.clone());
+                        run_history(&cx, &g, &ops, &format!("utxo-pipeline:{}", gen::UTXO_VARIANTS[variant]), hid, cid, &mut int, &mut lines, &mut st);
+                        hid += 1;
+                        // and without it (the finalizer alone)
+                        if ini == 0 && variant <= 1 {
+                            let mut ops = signing.clone();
+                            ops.extend(tail.clone());
+                            run_history(&cx, &g, &ops, &format!("utxo-unchecked:{}", gen::UTXO_VARIANTS[variant]), hid, cid, &mut int, &mut lines, &mut st);
+                            hid += 1;
+                        }
+                    }
+                }
             }
             // (c) the straight path: everything added, finalize, extract (must produce valid spends where possible)
             let mut ops: Vec<Op> = pool_ops.iter().filter(|o| matches!(o.kind(), "update" | "add-sig" | "add-tap-key-sig" | "add-tap-script-sig" | "add-preimage" | "add-unknown")).cloned().collect();
